@@ -34,11 +34,13 @@ class Stopper(Exception):
   """The exception passed to maybe_stop(exc)."""
 
 
-def source(p, n, fail_at=None, ret=True, started=None):
+def source(p, n, fail_at=None, ret=True, started=None, gate=None):
   if started is not None:
     started.set()
   for i in range(n):
     if fail_at is not None and i == fail_at:
+      if gate is not None:
+        gate()       # wait (yielding) until the harness-chosen state is reached
       raise Boom(f'p{p}@{i}')
     yield (p, i)
   if fail_at is not None and fail_at >= n:
@@ -115,13 +117,13 @@ class QueueHarness(explorer.Harness):
 
   def __init__(self, prods=(1,), cap=0, cons=('get',), declared=True, fail=None,
                stop=None, timeout=None, ignore_error=False, mode='preempt',
-               starve=None, late=False):
+               starve=None, late=False, gate=0):
     self.params = dict(prods=list(prods), cap=cap,
                        cons=[list(c) if not isinstance(c, str) else c
                              for c in cons],
                        declared=declared, fail=fail, stop=stop, timeout=timeout,
                        ignore_error=ignore_error, mode=mode, starve=starve,
-                       late=late)
+                       late=late, gate=gate)
     self.mode = mode
     prepare()
 
@@ -137,6 +139,13 @@ class QueueHarness(explorer.Harness):
     self.prod_end = [None] * nprod
     self.stop_end = None
 
+    def gate():
+      # the failing source raises only once `gate` producers wait in put()
+      from vmc import vtime
+      cond = object.__getattribute__(q, '_enqueue_lock')
+      while len(cond._waiters) < p['gate']:
+        vtime.sleep(0)
+
     def producer(i):
       fail_at = None
       if p['fail'] is not None and p['fail'][0] == i:
@@ -144,7 +153,8 @@ class QueueHarness(explorer.Harness):
       try:
         q.enqueue_from_iterator(
             source(i, p['prods'][i], fail_at,
-                   started=started[i] if p['stop'] else None))
+                   started=started[i] if p['stop'] else None,
+                   gate=gate if p.get('gate') else None))
         self.prod_end[i] = ('ok',)
       except sched.Abort:
         raise
